@@ -426,6 +426,9 @@ def c04_cases(ctx, quick):
     fs = 8000.0
 
     def mk(n, N, it, zoom, P, fpt, der, T, cur, e1t, checks, **kw):
+        # the property quantifies over decrements inside the explicit scheme's stable range: e1/delta^2 < 1/2 (kept <= 0.4)
+        delta = P / (n - 1.0)
+        e1t = min(e1t, 0.4 * delta * delta)
         td = 2.0 / (fs * e1t * N) if e1t > 0 else 0.0
         opts = ["-s", str(n), "-I"] + [repr(c) for c in cur] + ["-G", "0", "-d", repr(td), "-f", str(fs), "--InitialDistZoom", str(zoom), "-N", str(N),
                 "-T", str(T), "-n", "1", "--LinearRF", "1", "--InterpolationPoints", str(it), "-P", str(P), "--FPType", str(fpt), "--derivation", str(der),
